@@ -491,7 +491,9 @@ fn instances(f: &Form, tier: Tier, exhaustive: bool) -> Vec<Inst> {
 
 fn run_all(ctx: &mut Ctx) {
     let tier = ctx.tier;
+    // (modules of up to 600 functions: a database is replaced every 40 compilations to bound its memory)
     let mut dbs = Dbs::default();
+    dbs.recycle_after = 40;
     let types: Vec<&Ty> = match tier {
         Tier::Quick => TYPES.iter().filter(|t| ["u8", "i8", "u32", "u128", "i128"].contains(&t.name)).collect(),
         Tier::Thorough => TYPES.iter().collect(),
